@@ -20,7 +20,7 @@
 #define TAPE 8192
 static uint32_t g_tape[TAPE]; static int g_ti, g_synth, g_in_celt, g_idx_bands, g_transient_ok;
 static ec_enc g_enc; static unsigned char g_buf[1300];
-static int g_slack, g_end, g_celt_ret, g_pos; static opus_uint32 g_last[4]; static int g_nlast;
+static int g_slack, g_end, g_celt_ret, g_pos, g_spd; static opus_uint32 g_last[4]; static int g_nlast;
 static int special(void) { int k, c = 0; for (k = 0; k < 4; k++) c += g_last[k] == 285088u || g_last[k] == 1385794152u; return c; }
 static uint32_t T(void) { uint32_t v = g_tape[g_ti % TAPE]; g_ti++; return v; }
 static void mirror(ec_dec *d) { d->rng = g_enc.rng; d->nbits_total = g_enc.nbits_total; }
@@ -45,7 +45,11 @@ opus_uint32 __wrap_ec_dec_uint(ec_dec *d, opus_uint32 ft)
    }
    v = (opus_uint32)((((uint64_t)T() << 16) ^ T()) % ft);
    if (ft > 40) { g_last[g_nlast & 3] = ft; g_nlast++; }
-   ec_enc_uint(&g_enc, v, ft); mirror(d); return v;
+   { int t0 = (int)ec_tell_frac(d);
+     ec_enc_uint(&g_enc, v, ft); mirror(d);
+     if (ft == 285088u) g_spd += (int)ec_tell_frac(d) - t0 - 145;
+     if (ft == 1385794152u) g_spd += (int)ec_tell_frac(d) - t0 - 243; }
+   return v;
 }
 opus_uint32 __real_ec_dec_bits(ec_dec *, unsigned);
 opus_uint32 __wrap_ec_dec_bits(ec_dec *d, unsigned n)
@@ -88,7 +92,7 @@ void __wrap_quant_all_bands(int encode, const CELTMode *m, int start, int end, c
    const celt_ener *bandE, int *pulses, int shortBlocks, int spread, int dual_stereo, int intensity, int *tf_res, opus_int32 total_bits,
    opus_int32 balance, ec_ctx *ec, int LM, int codedBands, opus_uint32 *seed, int complexity, int arch, int disable_inv)
 {
-   g_idx_bands = g_ti; g_nlast = 0; memset(g_last, 0, sizeof g_last);
+   g_idx_bands = g_ti; g_spd = 0; g_nlast = 0; memset(g_last, 0, sizeof g_last);
    __real_quant_all_bands(encode, m, start, end, X, Y, cm, bandE, pulses, shortBlocks, spread, dual_stereo, intensity, tf_res, total_bits,
       balance, ec, LM, codedBands, seed, complexity, arch, disable_inv);
    if (!encode) { g_slack = (int)total_bits - (int)ec_tell_frac(ec); g_pos = g_ti; }
@@ -105,7 +109,7 @@ int __wrap_celt_decode_with_ec_dred(CELTDecoder *st, const unsigned char *data, 
    return ret;
 }
 
-static opus_int16 pcm[5760 * 2]; static int g_sc; static long g_hist_sc[5];
+static opus_int16 pcm[5760 * 2]; static int g_sc; static long g_dh[4][8]; static long g_hist_sc[5];
 static OpusDecoder *D[2];
 static int run(int synth, const unsigned char *pk, int n, int st)
 {
@@ -123,13 +127,13 @@ int main(int argc, char **argv)
    r.s = strtoull(argv[1], 0, 10) * 0xD1342543DE82EF95ULL + 0x7654321ULL; vnext(&r); starts = atol(argv[2]); iters = atol(argv[3]);
    D[0] = opus_decoder_create(48000, 1, &err); D[1] = opus_decoder_create(48000, 2, &err);
    for (i = 0; i < starts; i++) {
-      unsigned char pk[1300]; static uint32_t keep[TAPE]; int len = vrange(&r, 12, 200), st = vchance(&r, 25), cfg, k, cur, ret;
+      unsigned char pk[1300]; static uint32_t keep[TAPE]; int len = vrange(&r, 12, 200), st = vchance(&r, 25), cfg, k, cur, ret, curspd = 0;
       static const int CFG[6] = {23, 27, 31, 22, 26, 30};    /* WB / SWB / FB at 20 ms and 10 ms */
       cfg = CFG[vbelow(&r, 6)];
       g_transient_ok = vchance(&r, 20);
       pk[0] = (unsigned char)((cfg << 3) | (st << 2)); memset(pk + 1, 0x55, len);
       for (k = 0; k < TAPE; k++) g_tape[k] = (uint32_t)vnext(&r);
-      run(1, pk, len + 1, st); cur = g_slack;
+      run(1, pk, len + 1, st); cur = g_slack; curspd = 0;
       {  /* phase A: steer the frame (any symbol, and the packet size) until the last PVQ reads use the two cache entries whose
             coded cost exceeds the cached cost, (N,K) = (16,5) and (12,15) */
          int sc = special(), lenk = len;
@@ -142,15 +146,16 @@ int main(int argc, char **argv)
             run(1, pk, len + 1, st); ns = special();
             if (ns >= sc) sc = ns; else { memcpy(g_tape, keep, sizeof keep); len = lenk; run(1, pk, len + 1, st); }
          }
-         cur = g_slack; g_sc = sc;
+         cur = g_slack; g_sc = sc; curspd = g_spd;
       }
-      if (g_sc >= 2) for (it = 0; it < 4 * iters && cur >= 0; it++) {
-         int idx, lo = g_idx_bands, hi = g_pos > lo ? g_pos : lo + 1, nv, ns;
+      if (g_sc >= 4) for (it = 0; it < 200 * iters && cur >= 0; it++) {
+         int idx, lo = vchance(&r, 50) ? g_idx_bands : 0, hi = g_pos > lo ? g_pos : lo + 1, nv, ns;
          memcpy(keep, g_tape, sizeof keep);
          idx = vrange(&r, lo, hi - 1);
          g_tape[idx % TAPE] = (uint32_t)vnext(&r);
          run(1, pk, len + 1, st); nv = g_slack; ns = special();
-         if (nv <= cur && ns >= g_sc) cur = nv; else { memcpy(g_tape, keep, sizeof keep); run(1, pk, len + 1, st); }
+         if (g_spd >= 0 && g_spd < 4 && nv >= 0 && nv < 8) g_dh[g_spd][nv]++;
+         if (ns >= g_sc && (nv < cur || (nv == cur && g_spd >= curspd))) { cur = nv; curspd = g_spd; } else { memcpy(g_tape, keep, sizeof keep); run(1, pk, len + 1, st); }
       }
       g_hist_sc[g_sc]++;
       if (cur < best_all) best_all = cur;
@@ -168,6 +173,7 @@ int main(int argc, char **argv)
          vhex(stdout, pk, len + 1); printf("\n"); fflush(stdout);
       }
    }
+   { int a, b; for (a = 0; a < 4; a++) { printf("# drift_sum=%d slack histogram:", a); for (b = 0; b < 8; b++) printf(" %ld", g_dh[a][b]); printf("\n"); } }
    printf("# special-count histogram: %ld %ld %ld %ld %ld\n", g_hist_sc[0], g_hist_sc[1], g_hist_sc[2], g_hist_sc[3], g_hist_sc[4]);
    printf("# synth starts=%ld best_synth_slack=%ld synth_negative=%ld real_errors=%ld real_min_slack=%ld real_min_bits_left=%ld\n",
           starts, best_all, fired, confirmed, real_min_slack, real_min_end);
